@@ -60,12 +60,12 @@ class CGen:
             if self.lang == "JAVA" and op in ("&&", "||"):
                 return "( ( %s != 0 %s %s != 0 ) ? 1 : 0 )" % (a, op, b)
             if self.lang == "JAVA" and op in ("<", ">", "<=", ">=", "==", "!="):
-                return "( %s %s %s ? 1 : 0 )" % (a, op, b)
+                return "( %s %s %s ? 1 : 0 )" % (self.paren(a), op, self.paren(b))
             if r.random() < 0.25 and op in (("+", "-", "&", "*", "<", ">", "|", "^", "==") if self.lang != "JAVA" else ("+", "-", "&", "*", "|", "^")):
                 # an operator directly followed by a prefix operator: only blanks keep `- -x`, `+ +x`, `& &g0`... apart
                 self.hit("e:op-prefix-op")
-                pre = r.choice(["-", "+", "~"] + (["!"] if self.lang != "JAVA" else []) + ([op] if op in ("+", "-") else []))
-                return "%s %s %s %s" % (self.paren(a), op, pre, self.var(loc))
+                pre = r.choice(["-", "+", "~"] + (["!"] if self.lang != "JAVA" else []) + ([op, "++", "--", "++", "--"] if op in ("+", "-") else []))
+                return "%s %s %s %s" % (self.paren(a), op, pre, r.choice(loc) if pre in ("++", "--") else self.var(loc))
             if r.random() < 0.5:
                 return "( %s %s %s )" % (a, op, b)
             return "%s %s %s" % (self.paren(a), op, self.paren(b))
